@@ -7,7 +7,7 @@
 From Coq Require Import NArith ZArith List String Bool.
 From SV Require Import KV.KvBase KV.KvLex KV.KvParse KV.KvSym KV.KvRoundtrip.
 From SV Require Import Fmt.VmfText Fmt.VmfTextProofs Fmt.VmfBlocks Fmt.VmfBlocksProofs Fmt.VmfFields Fmt.VmfFieldsProofs.
-From SV Require Import Fmt.VmfNum Fmt.VmfNumProofs.
+From SV Require Import Fmt.VmfNum Fmt.VmfNumProofs Fmt.VmfGuard Fmt.VmfGuardProofs.
 From SV Require Import Gen.VmfTemplates_gen Gen.VmfKeys_gen Gen.VmfDispSizes_gen Gen.VmfOrder_gen Gen.VmfProg_gen Gen.VmfFieldsCfg_gen Gen.VmfNumFmt_gen.
 Import ListNotations.
 
@@ -209,3 +209,24 @@ Theorem c06_five_digits_refuted : exists m d wn wd, (0 < d /\ 0 < wd /\ writes (
 Proof. exact g5_not_sig6. Qed.
 Theorem c06_six_decimals_not_exact : exists m d wn wd, (0 < d /\ 0 < wd /\ writes (FmtF 6) m d wn wd /\ ~ within PExact m d wn wd)%Z.
 Proof. exact f6_not_exact. Qed.
+
+(** 9. Optional groups of displacement arrays (round 3).  The multiblend arrays are written only under a guard; the reader
+    leaves the vertex defaults when they are absent.  If the generated group passes [optgroup_ok primary] -- the guard is
+    "some vertex has a truthy member m", m is the member carried by the array named [primary] and m is falsy in a fresh
+    vertex -- then that member survives export and parse for every list of vertices ([get]/[truthy]/[dflt]: any vertex
+    type whose falsy members equal the default's).  The other members of the group are lost when the guard member is
+    default everywhere (limit of the representation, accepted by the comparison), and a guard on another member loses
+    the primary one. *)
+Theorem c06_optional_group_roundtrip : forall (vert val : Type) (get : string -> vert -> val) (truthy : string -> vert -> bool)
+    (dflt : vert) primary g,
+  optgroup_ok primary g = true ->
+  (forall m, In m (og_falsy_default g) -> forall v, truthy m v = false -> get m v = get m dflt) ->
+  exists m, assoc primary (og_arrays g) = Some m /\
+    forall vs, map (get m) (parse_group vert dflt (List.length vs) (export_group vert truthy m vs)) = map (get m) vs.
+Proof. exact group_roundtrip. Qed.
+Theorem c06_unguarded_member_lost :
+  exists vs, map (ex_get "alpha") (parse_group _ (0, 0)%Z (List.length vs) (export_group _ ex_truthy "blend" vs)) <> map (ex_get "alpha") vs.
+Proof. exact unguarded_member_lost. Qed.
+Theorem c06_guard_on_other_member_refuted :
+  exists vs, map (ex_get "blend") (parse_group _ (0, 0)%Z (List.length vs) (export_group _ ex_truthy "alpha" vs)) <> map (ex_get "blend") vs.
+Proof. exact guard_on_other_member_refuted. Qed.
